@@ -1978,8 +1978,14 @@ def e2e_keys(fmt, recs, answer):
     return [KNOWN_KEYS.get((fmt, t), f'np-e2e-{fmt}/{t}') for t in answer.split(' ')]
 
 
+SRC_THEOREMS = ['GV.C20Src.' + t for t in (
+    'convertDt_eq', 'convertDt_none', 'field_spec', 'shpGetDt_eq', 'gpdGetDt_eq',
+    'srcReadShp_eq', 'srcFromGeopandas_eq', 'shp_roundtrip_partial_src', 'gpd_roundtrip_partial_src')]
+
+
 def check(run):
     run.prove(MODULE, THEOREMS)
+    run.source_tie(['SrcIo'], 'GeoVerif.Props.C20Src', SRC_THEOREMS)
     import hashlib
     digest = hashlib.sha1()
     _run_cases = run.run_cases
